@@ -179,7 +179,7 @@ func c16r2(c *core.Ctx) {
 	// second accepted idiom: offset loop  for off := 0; off < len(value); off += 255 { n := copy(buf, value[off:]) }
 	byOffset := false
 	if !okLen && buf != nil && lenKnown {
-		byOffset = offsetChunking(lenStore.Val, buf, valueParam, n)
+		byOffset = offsetChunking(lenStore.Val, buf, valueParam, n) || nextChunking(lenStore.Val, buf, valueParam, n)
 		okLen = byOffset
 	}
 	c.Check(okLen, "fragment-length@"+fname(f), lenStore.Pos(), "item.length is the count io.ReadFull reported for the fragment buffer", "item.length is not the number of bytes read into the fragment buffer")
@@ -429,6 +429,68 @@ func offsetChunking(lenVal ssa.Value, buf *ssa.Alloc, value *ssa.Parameter, size
 			return isLenOf(bo.Y, value), false
 		})
 		if zero && step && tested {
+			return true
+		}
+	}
+	return false
+}
+
+// nextChunking: third accepted fragmentation idiom:  r := bytes.NewBuffer(value); for r.Len() > 0 { n := copy(buf, r.Next(size)) } —
+// Next hands out consecutive pieces of at most size bytes, only the last can be shorter, and the loop ends when nothing is left.
+func nextChunking(lenVal ssa.Value, buf *ssa.Alloc, value *ssa.Parameter, size int64) bool {
+	for _, s := range core.Sources(lenVal) {
+		call, ok := s.(*ssa.Call)
+		if !ok {
+			continue
+		}
+		b, isB := call.Call.Value.(*ssa.Builtin)
+		if !isB || b.Name() != "copy" || allocOf(call.Call.Args[0]) != buf {
+			continue
+		}
+		if dst, isSl := call.Call.Args[0].(*ssa.Slice); isSl {
+			if dst.Low != nil {
+				continue
+			}
+			if dst.High != nil {
+				if k, isK := core.ConstInt(dst.High); !isK || k != size {
+					continue
+				}
+			}
+		}
+		okSrc := core.AnySource(call.Call.Args[1], func(sv ssa.Value) bool {
+			nx, ok := sv.(*ssa.Call)
+			if !ok || !core.IsCall(nx, "(*bytes.Buffer).Next") {
+				return false
+			}
+			if k, isK := core.ConstInt(core.Args(nx)[0]); !isK || k != size {
+				return false
+			}
+			// the buffer holds the value parameter
+			rd := nx.Call.Args[0]
+			fromValue := core.AnySource(rd, func(rv ssa.Value) bool {
+				nb, ok := rv.(*ssa.Call)
+				return ok && (core.IsCall(nb, "bytes.NewBuffer") || core.IsCall(nb, "bytes.NewReader")) && core.AnySource(nb.Call.Args[0], func(x ssa.Value) bool { return x == ssa.Value(value) })
+			})
+			if !fromValue {
+				return false
+			}
+			// governed by  r.Len() > 0
+			return core.Dominated(nx, func(cond ssa.Value) (bool, bool) {
+				bo, ok := cond.(*ssa.BinOp)
+				if !ok {
+					return false, false
+				}
+				lc, isC := bo.X.(*ssa.Call)
+				if !isC || !core.IsCall(lc, "(*bytes.Buffer).Len") || !sameValue(lc.Call.Args[0], rd) {
+					return false, false
+				}
+				if k, isK := core.ConstInt(bo.Y); isK && k == 0 && (bo.Op == token.GTR || bo.Op == token.NEQ) {
+					return true, false
+				}
+				return false, false
+			})
+		})
+		if okSrc {
 			return true
 		}
 	}
